@@ -1290,7 +1290,7 @@ class Ortho(Contract):
 @register
 class Svd(Contract):
     name, func = 'TT.svd', 'svd'
-    props = ('C05', 'C06')
+    props = ('C05', 'C06', 'C17')
 
     def instances(self):
         return [{'overwrite': False}, {'overwrite': True}]
@@ -1375,7 +1375,7 @@ class Svd(Contract):
 @register
 class Pinv(Contract):
     name, func = 'TT.pinv', 'pinv'
-    props = ('C05', 'C06')
+    props = ('C05', 'C06', 'C17')
 
     def instances(self):
         return [{'overwrite': False}, {'overwrite': True}]
